@@ -780,18 +780,18 @@ func (c *fileCtx) renderDriver(an *Analysis) {
 		switch {
 		case in.Cleanup && in.Err:
 			c.pf("\t\tres_, cu_, err_ := %s(%s)\n", in.Name, strings.Join(call, ", "))
-			c.pf("\t\tc_.Ret(res_, true, cu_ == nil, true, err_)\n")
+			c.pf("\t\tc_.Ret(&res_, true, cu_ == nil, true, err_)\n")
 			c.pf("\t\tif err_ == nil && cu_ != nil {\n\t\t\tc_.CuInvoke()\n\t\t\tcu_()\n\t\t\tc_.CuDone()\n\t\t}\n")
 		case in.Cleanup:
 			c.pf("\t\tres_, cu_ := %s(%s)\n", in.Name, strings.Join(call, ", "))
-			c.pf("\t\tc_.Ret(res_, true, cu_ == nil, false, nil)\n")
+			c.pf("\t\tc_.Ret(&res_, true, cu_ == nil, false, nil)\n")
 			c.pf("\t\tif cu_ != nil {\n\t\t\tc_.CuInvoke()\n\t\t\tcu_()\n\t\t\tc_.CuDone()\n\t\t}\n")
 		case in.Err:
 			c.pf("\t\tres_, err_ := %s(%s)\n", in.Name, strings.Join(call, ", "))
-			c.pf("\t\tc_.Ret(res_, false, true, true, err_)\n")
+			c.pf("\t\tc_.Ret(&res_, false, true, true, err_)\n")
 		default:
 			c.pf("\t\tres_ := %s(%s)\n", in.Name, strings.Join(call, ", "))
-			c.pf("\t\tc_.Ret(res_, false, true, false, nil)\n")
+			c.pf("\t\tc_.Ret(&res_, false, true, false, nil)\n")
 		}
 		c.pf("\t})\n")
 	}
